@@ -10,13 +10,15 @@ PatByte(seed, i) == (i * 131 + (i \div 256) + seed * 17) % 256
 
 \* A segment is  [r |-> <<seed, off, len>>]  (len bytes of pattern `seed` from offset off),
 \*               [l |-> <<b1, ..., bn>>]     (literal bytes) or
-\*               [g |-> <<len, hash>>]       (unrecognised bytes).
+\*               [g |-> <<len, hash>>]       (unrecognised bytes) or
+\*               [z |-> len]                 (len zero bytes).
 IsRun(s) == "r" \in DOMAIN s
 IsLit(s) == "l" \in DOMAIN s
 IsGarbage(s) == "g" \in DOMAIN s
-SegLen(s) == IF IsRun(s) THEN s.r[3] ELSE IF IsLit(s) THEN Len(s.l) ELSE s.g[1]
+IsZeros(s) == "z" \in DOMAIN s
+SegLen(s) == IF IsRun(s) THEN s.r[3] ELSE IF IsLit(s) THEN Len(s.l) ELSE IF IsZeros(s) THEN s.z ELSE s.g[1]
 \* Byte i (1-based) of a segment; -1 for garbage
-SegByte(s, i) == IF IsRun(s) THEN PatByte(s.r[1], s.r[2] + i - 1) ELSE IF IsLit(s) THEN s.l[i] ELSE -1
+SegByte(s, i) == IF IsRun(s) THEN PatByte(s.r[1], s.r[2] + i - 1) ELSE IF IsLit(s) THEN s.l[i] ELSE IF IsZeros(s) THEN 0 ELSE -1
 
 RECURSIVE SegsLen(_)
 SegsLen(ss) == IF ss = <<>> THEN 0 ELSE SegLen(Head(ss)) + SegsLen(Tail(ss))
@@ -24,10 +26,16 @@ SegsLen(ss) == IF ss = <<>> THEN 0 ELSE SegLen(Head(ss)) + SegsLen(Tail(ss))
 RECURSIVE SegsByteFrom(_, _, _)
 SegsByteFrom(ss, k, i) == IF i <= SegLen(ss[k]) THEN SegByte(ss[k], i) ELSE SegsByteFrom(ss, k + 1, i - SegLen(ss[k]))
 SegsByte(ss, i) == SegsByteFrom(ss, 1, i)
+\* number of bytes from position i (1-based) to the end of the zero-run segment containing it (0 if it is not in one)
+RECURSIVE ZeroSpanFrom(_, _, _)
+ZeroSpanFrom(ss, k, i) == IF k > Len(ss) THEN 0
+                          ELSE IF i <= SegLen(ss[k]) THEN (IF IsZeros(ss[k]) THEN SegLen(ss[k]) - i + 1 ELSE 0)
+                          ELSE ZeroSpanFrom(ss, k + 1, i - SegLen(ss[k]))
 
 \* An input is [len |-> n, segs |-> <<...>>]
 MkIn(segs) == [len |-> SegsLen(segs), segs |-> segs]
 At(in, i) == SegsByte(in.segs, i)
+ZeroSpan(in, i) == ZeroSpanFrom(in.segs, 1, i)
 Rem(in, i) == in.len - i + 1          \* bytes available from position i (1-based)
 
 U16(in, i) == At(in, i) * 256 + At(in, i + 1)
